@@ -277,12 +277,12 @@ func convInjective(x *ssa.Convert) bool {
 }
 
 type memoSite struct {
-	Fn    *ssa.Function
-	Instr ssa.Instruction
-	Memo  string // canonical name of the memo object
-	Key   ssa.Value
-	Val   ssa.Value
-	Kind  string // closure-map, global-map, sync.Map
+	Fn     *ssa.Function
+	Instr  ssa.Instruction
+	Memo   string // canonical name of the memo object
+	Key    ssa.Value
+	Val    ssa.Value
+	Kind   string      // closure-map, global-map, sync.Map
 	Lookup *ssa.Lookup // the miss test that precedes the store (map memos)
 }
 
